@@ -344,6 +344,8 @@ def _havoc_heap_for_loop(engine, st, spec, body=None, fr=None):
             if p in mutated_local and name in ("$len", "$at", "$mem", "$dval"):
                 continue
             new = z3.Store(new, z3.IntVal(p), z3.Select(a, z3.IntVal(p)))
+        for ft in st.frozen_terms:
+            new = z3.Store(new, ft, z3.Select(a, ft))
         st.heap[name] = new
     for p in mutated_local:
         st.assume(st.get("$len", z3.IntVal(p)) >= 0)
@@ -597,6 +599,14 @@ def listcomp(engine, st, fr, e):
             yield r
 
 
+def _same_shape(a, b):
+    if isinstance(a, ast.Name) and isinstance(b, ast.Name):
+        return a.id == b.id
+    if isinstance(a, ast.Tuple) and isinstance(b, ast.Tuple) and len(a.elts) == len(b.elts):
+        return all(_same_shape(x, y) for x, y in zip(a.elts, b.elts))
+    return False
+
+
 def _pure_elt(engine, st, fr, e, g, src, i):
     """Evaluate target binding + conditions + element for symbolic index i on a scratch copy;
     only pure (single-outcome, no trace/heap change) comprehensions qualify."""
@@ -616,7 +626,11 @@ def _pure_elt(engine, st, fr, e, g, src, i):
         s1 = o[0][0]
         t = engine.truth(s1, o[0][1])
         conds.append(z3.BoolVal(t) if isinstance(t, bool) else t)
-    o = list(engine.ev(e.elt, s1, cfr))
+    if _same_shape(e.elt, g.target):
+        # `[(f, d) for (f, d) in xs if ...]`: the element is (a copy of) the source element itself
+        o = [(s1, src["elem"](s1, i))]
+    else:
+        o = list(engine.ev(e.elt, s1, cfr))
     if len(o) != 1 or _is_raise(o[0][1]):
         return None
     s1, v = o[0]
@@ -666,6 +680,8 @@ def _listcomp_symbolic(engine, st, fr, e, g, it):
     if not conds:
         st.put("$at", ooid, z3.Lambda([i], vt))
         st.put("$len", ooid, n)
+        st.ghost["lc:%d" % e.lineno] = {"n": n, "elt_at": z3.Lambda([i], vt), "src": src, "out": out.t, "map_only": True,
+                                        "heap_at": s1.arr("$at")}
         yield st, out
         return
     cond = z3.And(conds)
@@ -686,7 +702,11 @@ def _listcomp_symbolic(engine, st, fr, e, g, it):
     st.assume(z3.ForAll([i], z3.Implies(z3.And(rng, z3.Select(cond_at, i)),
                                         z3.And(z3.Select(pos, i) >= 0, z3.Select(pos, i) < m,
                                                z3.Select(idx, z3.Select(pos, i)) == i))))
-    st.ghost["lc:%d" % e.lineno] = {"idx": idx, "pos": pos, "m": m, "n": n, "cond_at": cond_at, "src": src}
+    # explicit instance for the first result position (most uses look at result[0])
+    st.assume(z3.Implies(m >= 1, z3.And(z3.Select(idx, 0) >= 0, z3.Select(idx, 0) < n, z3.Select(cond_at, z3.Select(idx, 0)),
+                                          z3.Select(pos, z3.Select(idx, 0)) == 0)))
+    st.ghost["lc:%d" % e.lineno] = {"idx": idx, "pos": pos, "m": m, "n": n, "cond_at": cond_at, "src": src, "out": out.t,
+                                    "elt_at": elt_at, "heap_at": s1.arr("$at")}
     yield st, out
 
 
@@ -706,7 +726,7 @@ def _for_effectful_comp(engine, st, fr, loop, it):
         _havoc_heap_for_loop(engine, st_b, spec, loop.body, fr)
         i = fresh("it_idx", I)
         st_b.assume(z3.And(i >= 0, i < n))
-        st_b.trace.append(Event("loop-head", site=engine.site(fr, loop), extra={"comp": True, "i": i}))
+        st_b.trace.append(Event("loop-head", site=engine.site(fr, loop), extra={"comp": True, "i": i, "iter": getattr(it, "t", None)}))
         if engine.feasible(st_b):
             st_b.decisions.append(("comprehension body", True))
             for st1, r in engine.assign(loop.target, src["elem"](st_b, i), st_b, cfr):
@@ -718,7 +738,7 @@ def _for_effectful_comp(engine, st, fr, loop, it):
                         yield st2, ctrl
         st_e = entry
         _havoc_heap_for_loop(engine, st_e, spec, loop.body, fr)
-        st_e.trace.append(Event("loop-exit", site=engine.site(fr, loop), extra={"comp": True}))
+        st_e.trace.append(Event("loop-exit", site=engine.site(fr, loop), extra={"comp": True, "iter": getattr(it, "t", None)}))
         yield st_e, None
     finally:
         engine.cfg.loops = saved
